@@ -174,6 +174,39 @@ def m_prefix(I, st, info, args, depth):
     return ret(st, some(val) if is_get else val)
 
 
+@smodel(r"^core::iter::traits::iterator::Iterator::next$")
+def m_split_next(I, st, info, args, depth):
+    """raw.split(sep) pulled with next(): the i-th call yields segment i when the string has more than i segments; the segment count
+    and the segments are the ones `split(sep).collect()` names"""
+    p = I.resolve(st, args[0])
+    x = deref(I, st, args[0])
+    if not (isinstance(x, Struct) and x.adt == "str::Split" and "pos" in x.fields and x.fields["how"].s == "split"):
+        return None
+    sep = _sep_of(I, st, x.fields["sep"])
+    if sep is None or not isinstance(p, Ptr):
+        return None
+    sg = as_segs(I, st, x.fields["src"], sep)
+    if sg is None or sg[1] != 0 or sg[2] is not None:
+        return None
+    parts = sg[0]
+    i = x.fields["pos"].const
+    if i < 0:
+        return ret(st, none())      # exhausted
+
+    def advance(s2, pos):
+        I.store_to(s2, p, Struct("str::Split", None, dict(x.fields, pos=Aff(pos))))
+    out = []
+    n = Aff.sym(_nsym(parts))
+    for s2, more in MD.fork_bool(I, st, I.compare(st, "Ge", n, Aff(i + 1))):
+        if more:
+            advance(s2, i + 1)
+            out.append((s2, "return", some(seg(parts, i))))
+        else:
+            advance(s2, -1)
+            out.append((s2, "return", none()))
+    return out
+
+
 def install():
     MD.MODELS[:] = [(p, f) for p, f in NEW] + [m for m in MD.MODELS if not (m[1].__module__ == __name__)]
 
